@@ -457,16 +457,16 @@ Proof.
   destruct (r_passthrough r); cbn [s_chunks]; [reflexivity|apply flat_map_encode_map].
 Qed.
 
-Lemma opt_set_other iri h name v h' k' :
-  opt_set h name v iri = (h', None) -> ci_eqb name k' = false -> hd_getlist h' k' = hd_getlist h k'.
+Lemma opt_set_other (f : str -> str) h name v h' k' :
+  opt_set h name v f = (h', None) -> ci_eqb name k' = false -> hd_getlist h' k' = hd_getlist h k'.
 Proof.
   unfold opt_set. destruct v as [x|]; [|intro H; inversion H; reflexivity].
-  unfold hd_set. destruct (str_header_value (VStr (iri x))) as [s|]; [|discriminate].
+  unfold hd_set. destruct (str_header_value (VStr (f x))) as [s|]; [|discriminate].
   intros H Hk. inversion H; subst. destruct (hd_set_law h name s) as (_ & B & _). apply B. exact Hk.
 Qed.
 
-Theorem wsgi_content_length iri r h :
-  clean (r_headers r) -> get_wsgi_headers iri r = (h, None) ->
+Theorem wsgi_content_length iri join cur r h :
+  clean (r_headers r) -> get_wsgi_headers iri join cur r = (h, None) ->
   (no_cl_status (r_code r) = true -> hd_getlist h CONTENT_LENGTH = []) /\
   (last_value (r_headers r) CONTENT_LENGTH = None -> r_auto_cl r = true -> r_is_seq r = true ->
    bodyless false (r_code r) = false ->
@@ -496,12 +496,12 @@ Proof.
 Qed.
 
 (* what reaches the server is clean *)
-Theorem wsgi_headers_clean iri r : clean (r_headers r) -> clean (fst (get_wsgi_headers iri r)).
+Theorem wsgi_headers_clean iri join cur r : clean (r_headers r) -> clean (fst (get_wsgi_headers iri join cur r)).
 Proof.
   intro C. unfold get_wsgi_headers, hd_init, hd_extend, harg_items. rewrite (copy_clean _ C). cbn [hseq].
-  assert (Fo : forall h name v, clean h -> fine (opt_set h name v iri))
-    by (intros h name v Ch; unfold opt_set; destruct v; [apply fine_set|apply fine_ret]; exact Ch).
-  assert (F : fine (hseq (opt_set (r_headers r) LOCATION (last_value (r_headers r) LOCATION) iri) (fun h1 =>
+  assert (Fo : forall h name v f, clean h -> fine (opt_set h name v f))
+    by (intros h name v f Ch; unfold opt_set; destruct v; [apply fine_set|apply fine_ret]; exact Ch).
+  assert (F : fine (hseq (opt_set (r_headers r) LOCATION (last_value (r_headers r) LOCATION) (location_final iri join cur r)) (fun h1 =>
               hseq (opt_set h1 CONTENT_LOCATION (last_value (r_headers r) CONTENT_LOCATION) iri) (fun h2 =>
               hseq (if wsgi_strip_cl (r_code r) then (hd_del_key h2 CONTENT_LENGTH, None)
                     else if wsgi_strip_entity (r_code r)
@@ -524,38 +524,121 @@ Proof.
   apply F.
 Qed.
 
-(* ================================================================== close exactly once *)
-Theorem close_once r is_head :
-  r_passthrough r = false ->
-  c_callbacks (s_counts (serve r is_head)) = 1%nat /\
-  c_wrapped (s_counts (serve r is_head)) = ((if r_closable r then 1 else 0) + (if r_wrapped_cb r then 1 else 0))%nat.
+(* ================================================================== Location *)
+Definition is_ascii (s : str) : bool := forallb (fun c => c <? 128) s.
+
+(* the scan keeps the last value; whatever is found is replaced by its finalised form, and nothing after that
+   touches the Location rows *)
+Theorem location_ascii iri join cur r h :
+  (forall s, is_ascii (iri s) = true) ->
+  (forall a b, is_ascii a = true -> is_ascii b = true -> is_ascii (join a b) = true) ->
+  clean (r_headers r) -> get_wsgi_headers iri join cur r = (h, None) ->
+  forall v, In v (hd_getlist h LOCATION) -> is_ascii v = true.
 Proof.
-  intro P. unfold serve. rewrite P. destruct (app_iter_kind is_head (r_code r) false) eqn:K.
-  - cbn. split; reflexivity.
-  - unfold app_iter_kind in K. destruct (is_head || _ || _); discriminate.
-  - cbn. split; reflexivity.
+  intros Hi Hj C H. unfold get_wsgi_headers, hd_init, hd_extend, harg_items in H. rewrite (copy_clean _ C) in H. cbn [hseq] in H.
+  apply hseq_none in H. destruct H as (h1 & H1 & H). apply hseq_none in H. destruct H as (h2 & H2 & H).
+  apply hseq_none in H. destruct H as (h3 & H3 & H4).
+  assert (L2 : ci_eqb CONTENT_LOCATION LOCATION = false) by (vm_compute; reflexivity).
+  assert (L3 : ci_eqb CONTENT_LENGTH LOCATION = false) by (vm_compute; reflexivity).
+  (* after the Location step every Location value is ASCII *)
+  assert (A1 : forall v, In v (hd_getlist h1 LOCATION) -> is_ascii v = true).
+  { unfold opt_set in H1. unfold last_value in H1. destruct (hd_error (rev (hd_getlist (r_headers r) LOCATION))) as [loc|] eqn:E.
+    - unfold hd_set in H1. destruct (str_header_value (VStr (location_final iri join cur r loc))) as [s|] eqn:Es; [|discriminate].
+      inversion H1; subst h1. destruct (hd_set_law (r_headers r) LOCATION s) as (G & _). rewrite G. intros v [Ev|[]]. subst v.
+      unfold str_header_value in Es. destruct (has_newline _); [discriminate|]. inversion Es; subst s.
+      unfold location_final. destruct (r_autocorrect r); [apply Hj; apply Hi|apply Hi].
+    - inversion H1; subst h1. destruct (hd_getlist (r_headers r) LOCATION) as [|x l] eqn:G; [intros v []|].
+      exfalso. destruct (rev (x :: l)) eqn:R; [|discriminate].
+      assert (X : length (rev (x :: l)) = 0%nat) by (rewrite R; reflexivity). rewrite rev_length in X. discriminate. }
+  assert (A2 : hd_getlist h2 LOCATION = hd_getlist h1 LOCATION) by (apply (opt_set_other _ _ _ _ _ _ H2 L2)).
+  assert (A3 : forall v, In v (hd_getlist h3 LOCATION) -> In v (hd_getlist h2 LOCATION)).
+  { destruct (wsgi_strip_cl (r_code r)).
+    - inversion H3; subst h3. rewrite hd_del_law, L3. intros v Hv. exact Hv.
+    - destruct (wsgi_strip_entity (r_code r)); [|inversion H3; subst h3; intros v Hv; exact Hv].
+      destruct (hd_str_pairs _) as [new|e] eqn:E; [|discriminate]. inversion H3; subst h3.
+      assert (Enew : new = filter (fun kv => entity_keep (fst kv)) h2).
+      { clear -E. revert new E. generalize (filter (fun kv : str * str => entity_keep (fst kv)) h2) as l.
+        induction l as [|[k x] l IH]; intros new E; cbn [map hd_str_pairs fst snd] in E; [inversion E; reflexivity|].
+        unfold str_header_value in E. destruct (has_newline x); [discriminate|].
+        destruct (hd_str_pairs (map (fun kv => (fst kv, VStr (snd kv))) l)) as [t|] eqn:Et; [|discriminate].
+        inversion E; subst. f_equal. apply IH. reflexivity. }
+      subst new. unfold slice_set, clamp. cbn [firstn app]. rewrite Nat.max_r by lia. rewrite skipn_all. rewrite app_nil_r.
+      intros v Hv. unfold hd_getlist in *. apply in_map_iff in Hv. destruct Hv as [kv [Ekv Hkv]]. apply filter_In in Hkv.
+      destruct Hkv as [Hkv M]. apply filter_In in Hkv. destruct Hkv as [Hkv _].
+      apply in_map_iff. exists kv. split; [exact Ekv|]. apply filter_In. split; assumption. }
+  assert (A4 : hd_getlist h LOCATION = hd_getlist h3 LOCATION).
+  { destruct (wsgi_auto_cl _ _ _ _); [|inversion H4; reflexivity].
+    unfold hd_set in H4. destruct (str_header_value _) as [s|]; [|discriminate]. inversion H4; subst h.
+    destruct (hd_set_law h3 CONTENT_LENGTH s) as (_ & B & _). apply B. exact L3. }
+  intros v Hv. rewrite A4 in Hv. apply A3 in Hv. rewrite A2 in Hv. apply A1. exact Hv.
 Qed.
 
-(* with or without an earlier make_sequence the consumed iterable is closed exactly once if it can be closed *)
+(* ================================================================== close exactly once, in order *)
+Definition user_events (t : list event) : list nat :=
+  flat_map (fun e => match e with EUser i => [i] | _ => [] end) t.
+Definition wrapped_closes (t : list event) : nat :=
+  length (filter (fun e => match e with EWrapped => true | _ => false end) t).
+Definition user_ids (cbs : list cbk) : list nat := flat_map (fun c => match c with CbUser i => [i] | CbWrapped => [] end) cbs.
+Definition wrapped_cbs (cbs : list cbk) : nat := length (filter (fun c => match c with CbWrapped => true | _ => false end) cbs).
+
+Lemma response_close_events r :
+  user_events (response_close r) = user_ids (r_callbacks r) /\
+  wrapped_closes (response_close r) = ((if r_closable r then 1 else 0) + wrapped_cbs (r_callbacks r))%nat.
+Proof.
+  unfold response_close, user_events, wrapped_closes, user_ids, wrapped_cbs.
+  rewrite flat_map_app, filter_app, app_length. split.
+  - replace (flat_map _ (if r_closable r then [EWrapped] else [])) with (@nil nat) by (destruct (r_closable r); reflexivity).
+    cbn [app]. induction (r_callbacks r) as [|[i|] l IH]; cbn [map flat_map app]; [reflexivity|f_equal; exact IH|exact IH].
+  - f_equal; [destruct (r_closable r); reflexivity|].
+    induction (r_callbacks r) as [|[i|] l IH]; cbn [map filter length]; [reflexivity|exact IH|f_equal; exact IH].
+Qed.
+
+Lemma cb_events_no_iter (l : list cbk) :
+  filter (fun e => match e with EIterClose => false | _ => true end)
+    (map (fun c => match c with CbUser i => EUser i | CbWrapped => EWrapped end) l)
+  = map (fun c => match c with CbUser i => EUser i | CbWrapped => EWrapped end) l.
+Proof. induction l as [|[i|] l IH]; cbn [map filter]; [reflexivity| |]; rewrite IH; reflexivity. Qed.
+
+(* not in direct passthrough: the trace of the server's close is the generator close (if any) followed by exactly
+   Response.close; so every registered callback ran exactly once, in registration order *)
+Theorem close_once r is_head :
+  r_passthrough r = false ->
+  filter (fun e => match e with EIterClose => false | _ => true end) (s_trace (serve r is_head)) = response_close r /\
+  user_events (s_trace (serve r is_head)) = user_ids (r_callbacks r) /\
+  wrapped_closes (s_trace (serve r is_head)) = ((if r_closable r then 1 else 0) + wrapped_cbs (r_callbacks r))%nat.
+Proof.
+  intro P. unfold serve. rewrite P. destruct (response_close_events r) as [U W].
+  assert (F : filter (fun e => match e with EIterClose => false | _ => true end) (response_close r) = response_close r).
+  { unfold response_close. rewrite filter_app. f_equal; [destruct (r_closable r); reflexivity|]. apply cb_events_no_iter. }
+  destruct (app_iter_kind is_head (r_code r) false) eqn:K.
+  - cbn [s_trace ci_callbacks app flat_map run_act]. rewrite app_nil_r. split; [exact F|split; [exact U|exact W]].
+  - unfold app_iter_kind in K. destruct (is_head || _ || _); discriminate.
+  - cbn [s_trace ci_callbacks app flat_map run_act filter]. rewrite app_nil_r. split; [exact F|].
+    split; [exact U|exact W].
+Qed.
+
+(* with or without an earlier make_sequence: each application callback once and in order, the consumed iterable
+   closed exactly once if it can be closed *)
 Theorem close_once_make_sequence r is_head (pre : bool) :
-  r_passthrough r = false -> r_wrapped_cb r = false -> (r_is_seq r = true -> r_closable r = false) ->
+  r_passthrough r = false -> wrapped_cbs (r_callbacks r) = 0%nat -> (r_is_seq r = true -> r_closable r = false) ->
   let r' := if pre then make_sequence r else r in
-  c_callbacks (s_counts (serve r' is_head)) = 1%nat /\
-  c_wrapped (s_counts (serve r' is_head)) = (if r_closable r then 1 else 0)%nat.
+  user_events (s_trace (serve r' is_head)) = user_ids (r_callbacks r) /\
+  wrapped_closes (s_trace (serve r' is_head)) = (if r_closable r then 1 else 0)%nat.
 Proof.
   intros P W Q. cbv zeta. destruct pre.
   - unfold make_sequence. destruct (r_is_seq r) eqn:Es.
-    + destruct (close_once r is_head P) as [A B]. rewrite A, B, W, (Q eq_refl). split; reflexivity.
-    + match goal with |- context [serve ?x is_head] => destruct (close_once x is_head P) as [A B] end.
-      rewrite A, B. cbn [r_closable r_wrapped_cb]. rewrite W. cbn [orb]. destruct (r_closable r); split; reflexivity.
-  - destruct (close_once r is_head P) as [A B]. rewrite A, B, W. split; [reflexivity|]. destruct (r_closable r); reflexivity.
+    + destruct (close_once r is_head P) as (_ & A & B). rewrite A, B, W, (Q eq_refl). split; reflexivity.
+    + match goal with |- context [serve ?x is_head] => destruct (close_once x is_head P) as (_ & A & B) end.
+      rewrite A, B. cbn [r_closable r_callbacks]. unfold user_ids, wrapped_cbs in *. rewrite flat_map_app, filter_app, app_length, W.
+      destruct (r_closable r); cbn; rewrite ?app_nil_r; split; reflexivity.
+  - destruct (close_once r is_head P) as (_ & A & B). rewrite A, B, W. split; [reflexivity|]. destruct (r_closable r); reflexivity.
 Qed.
 
 Theorem close_once_refuted :
-  exists r is_head, r_ncb r = 1%nat /\ c_callbacks (s_counts (serve r is_head)) = 0%nat.
+  exists r is_head, r_callbacks r = [CbUser 0] /\ user_events (s_trace (serve r is_head)) = [].
 Proof.
   exists {| r_headers := []; r_code := 200%Z; r_line := []; r_body := [IBytes [120]]; r_is_seq := false; r_closable := true;
-            r_passthrough := true; r_auto_cl := true; r_ncb := 1; r_wrapped_cb := false |}, false.
+            r_passthrough := true; r_auto_cl := true; r_autocorrect := false; r_callbacks := [CbUser 0] |}, false.
   split; reflexivity.
 Qed.
 
